@@ -79,6 +79,9 @@ def generate(tier, seed):
     dist["syscall_faults"] = 0
     import shutil
     if shutil.which("strace"):
+        # the sequence of file-system calls of a successful save = Model/FileSave.v's save_new (create tmp, write, rename)
+        for new in news + [[["p", "x%d" % j] + ["v%d" % i for i in range(40)] for j in range(300)]]:      # (the last one: ~60 kB, several write calls)
+            cases.append("savetrace %s %s" % (enc_rules(old), enc_rules(new)))
         for new in news[:2] if tier == "quick" else news:
             for sc in ("openat", "write", "close", "rename", "unlink", "fsync", "ftruncate", "fcntl"):
                 for when in ((1, 2) if tier == "quick" else (1, 2, 3, 4)):
